@@ -133,6 +133,11 @@ func runSpec(s caseSpec) (fs []finding) {
 		dir := newDir()
 		defer os.RemoveAll(dir)
 		fs = append(fs, groupReadOne(lc, s.Pattern, c, dir)...)
+	case "group-index-base":
+		dir := newDir()
+		defer os.RemoveAll(dir)
+		var st searchStats
+		indexBaseCase(lc, s.Pattern, s.Base, dir, &st, func(oracle, what string) { add("clean", oracle, fmt.Sprintf("group-at-index-%d", s.Base), what) })
 	default:
 		add("harness", "unknown-phase", s.Phase, "")
 	}
@@ -231,6 +236,8 @@ func main() {
 		beginPhase(1.0)
 		groupReadPhase(fileLogs)
 		phaseDone("group-read")
+		groupIndexBasePhase(allLogs(3, 3))
+		phaseDone("group-index-base")
 	} else {
 		r.NotExhaustive("stopped after an allocation-bound violation (further oversize allocations could exhaust the machine)")
 	}
